@@ -16,9 +16,9 @@ carrying the encoded values, for ALL values of all the other fields of the frame
 import Rs1090.Model.Decode.Message
 import Rs1090.Spec.Encode
 import Rs1090.Props.C13
-import Rs1090.Proofs.C03Frames
+import Rs1090.Proofs.C03Adsb
 namespace Rs1090.Props.C03
-open Rs1090 Rs1090.Model Rs1090.Spec Rs1090.Spec.Encode Rs1090.Props.C13
+open Rs1090 Rs1090.Model Rs1090.Model.Message Rs1090.Spec Rs1090.Spec.Encode Rs1090.Props.C13 Rs1090.Proofs.C03
 
 /-! ## Enumeration helpers -/
 
@@ -139,6 +139,25 @@ theorem callsign_rt (cs : List Char) (h : validCallsign cs) :
     decodeCodes (callsignCodes cs) = .ok cs := by
   unfold decodeCodes callsignCodes
   rw [filter_codes cs h.2, go_map_charCode cs h.2]
+
+/-- the eight codes of a valid call sign, each a 6-bit number -/
+theorem callsignCodes_eight (cs : List Char) (h : validCallsign cs) :
+    ∃ c0 c1 c2 c3 c4 c5 c6 c7, callsignCodes cs = [c0, c1, c2, c3, c4, c5, c6, c7] ∧
+      (c0 < 2 ^ 6 ∧ c1 < 2 ^ 6 ∧ c2 < 2 ^ 6 ∧ c3 < 2 ^ 6 ∧ c4 < 2 ^ 6 ∧ c5 < 2 ^ 6 ∧ c6 < 2 ^ 6 ∧ c7 < 2 ^ 6) := by
+  have hl : (callsignCodes cs).length = 8 := by
+    have := h.1
+    simp [callsignCodes]; omega
+  have hb : ∀ x ∈ callsignCodes cs, x < 2 ^ 6 := by
+    intro x hx
+    simp only [callsignCodes, List.mem_append, List.mem_map, List.mem_replicate] at hx
+    rcases hx with ⟨c, hc, rfl⟩ | ⟨_, rfl⟩
+    · exact (charCode_spec c (h.2 c hc)).2.2
+    · decide
+  match hcs : callsignCodes cs, hl with
+  | [c0, c1, c2, c3, c4, c5, c6, c7], _ =>
+    rw [hcs] at hb
+    exact ⟨c0, c1, c2, c3, c4, c5, c6, c7, rfl, hb _ (by simp), hb _ (by simp), hb _ (by simp), hb _ (by simp),
+      hb _ (by simp), hb _ (by simp), hb _ (by simp), hb _ (by simp)⟩
 
 /-! ## 4. BDS 0,9 airborne velocity -/
 
@@ -387,5 +406,105 @@ theorem address_rt (a : Nat) (h : a < 2 ^ 24) : hexValue (hexChars 6 a) = some a
   simp only [Option.map]
   congr 1
   omega
+
+/-! # Layer 2 — frames
+
+`buildES df ca aa me` (DF 17/18), `buildShort df fs dr um code addr` (DF 4/5) and `buildCommB …` (DF 20/21)
+are the Spec's frames: fields at the standard's bit offsets, then PI parity (syndrome zero) or the
+AP overlay (parity ⊕ address).  The parity hypothesis of the decoder (`modes_checksum = 0`, resp.
+`= address`) is *discharged by construction* (`Proofs.C03.checksum_frame`, from C02's algebra).
+
+Each theorem gives the complete serialised message (`toDecoded (… fields …)`: the JSON object with
+exactly these keys in this order, `skipNone` fields dropped when absent), for ALL values of every
+field of the frame.  `esHead df c aa` is `df`, (`tisb`,) `icao24`; the payload shapes `out05 … out62`
+are spelled out in `Proofs/C03Adsb.lean`. -/
+
+/-- totality of the two BDS 0,9 tail conversions, for every code (so that the frame theorems can
+    quantify over *all* codes of the fields that are not under test) -/
+theorem vrate_total : ∀ sign, sign < 2 ^ 1 → ∀ v, v < 2 ^ 9 → (Bds09.vrate sign v).isOk = true :=
+  enum2 1 9 (by decide +kernel)
+theorem geobaro_total : ∀ sign, sign < 2 ^ 1 → ∀ v, v < 2 ^ 7 → (Bds09.geoBaro sign v).isOk = true :=
+  enum2 1 7 (by decide +kernel)
+
+theorem isOk_elim {α} {o : Outcome α} (h : o.isOk = true) : ∃ a, o = .ok a := by
+  cases o with
+  | ok a => exact ⟨a, rfl⟩
+  | err e => simp [Outcome.isOk] at h
+  | panic x => simp [Outcome.isOk] at h
+
+theorem ac12Q_lt : ∀ n, n < 2 ^ 11 → ac12Q n < 2 ^ 12 := enum 11 (by decide +kernel)
+theorem ac12G_lt : ∀ s, s < 2 ^ 11 → ac12G s < 2 ^ 12 := enum 11 (by decide +kernel)
+theorem ac13Q_lt : ∀ n, n < 2 ^ 11 → ac13Q n < 2 ^ 13 := enum 11 (by decide +kernel)
+theorem ac13G_lt : ∀ s, s < 2 ^ 11 → ac13G s < 2 ^ 13 := enum 11 (by decide +kernel)
+theorem id13OfOctal_lt : ∀ q, q < 2 ^ 12 → id13OfOctal q < 2 ^ 13 := enum 12 (by decide +kernel)
+
+/-- **DF 17/18, BDS 0,5 airborne position, 25 ft altitude**: every type code 9…18 / 20…22, every
+    altitude code, every value of SS, SAF, T, F and of the two CPR fields, every address -/
+theorem es_position (df c aa tc ss saf n t f lat lon : Nat)
+    (hdf : df = 17 ∨ df = 18) (hc : c < 2 ^ 3) (haa : aa < 2 ^ 24) (htc : tcAirborne tc)
+    (hss : ss < 2 ^ 2) (hsaf : saf < 2 ^ 1) (hn : n < 2 ^ 11) (ht : t < 2 ^ 1) (hf : f < 2 ^ 1)
+    (hlat : lat < 2 ^ 17) (hlon : lon < 2 ^ 17) :
+    tryFrom (buildES df c aa (me05 tc ss saf (ac12Q n) t f lat lon)) =
+      .ok (toDecoded (withFields (esHead df c aa)
+        (out05 tc saf (if n > 40 then some (25 * n - 1000) else none) t f lat lon))) := by
+  have htc5 : tc < 2 ^ 5 := by unfold tcAirborne at htc; omega
+  refine tryFrom_es df c aa _ _ hdf hc haa rfl ?_ ?_
+  · simp [fits, me05, htc5, hss, hsaf, ac12Q_lt n hn, ht, hf, hlat, hlon]
+  · intro F hF
+    exact me_bds05 F df c aa tc ss saf _ t f lat lon _ hF htc (alt25_rt n hn)
+
+/-- … with a Gillham-coded altitude (100 ft steps) -/
+theorem es_position_gillham (df c aa tc ss saf s t f lat lon : Nat)
+    (hdf : df = 17 ∨ df = 18) (hc : c < 2 ^ 3) (haa : aa < 2 ^ 24) (htc : tcAirborne tc)
+    (hss : ss < 2 ^ 2) (hsaf : saf < 2 ^ 1) (hs : s < GILLHAM_STEPS) (ht : t < 2 ^ 1) (hf : f < 2 ^ 1)
+    (hlat : lat < 2 ^ 17) (hlon : lon < 2 ^ 17) :
+    tryFrom (buildES df c aa (me05 tc ss saf (ac12G s) t f lat lon)) =
+      .ok (toDecoded (withFields (esHead df c aa)
+        (out05 tc saf (if 12 ≤ s ∧ 100 * (s - 12) < 65536 then some (100 * (s - 12)) else none) t f lat lon))) := by
+  have htc5 : tc < 2 ^ 5 := by unfold tcAirborne at htc; omega
+  have hs11 : s < 2 ^ 11 := by unfold GILLHAM_STEPS at hs; omega
+  refine tryFrom_es df c aa _ _ hdf hc haa rfl ?_ ?_
+  · simp [fits, me05, htc5, hss, hsaf, ac12G_lt s hs11, ht, hf, hlat, hlon]
+  · intro F hF
+    exact me_bds05 F df c aa tc ss saf _ t f lat lon _ hF htc (gillham_rt s hs11 hs)
+
+/-- **DF 17/18, BDS 0,6 surface position**: every ground speed `e` (eighths of a knot; the movement
+    code is the standard's), every track code and status, every other field.  The reported speed
+    `gs` is the lower edge of the standard's bucket of `e` (`movement_rt`), the track `trk·360/128`. -/
+theorem es_surface (df c aa tc e sts trk t f lat lon : Nat)
+    (hdf : df = 17 ∨ df = 18) (hc : c < 2 ^ 3) (haa : aa < 2 ^ 24) (htc : 5 ≤ tc ∧ tc ≤ 8) (he : e < 2 ^ 11)
+    (hsts : sts < 2 ^ 1) (htrk : trk < 2 ^ 7) (ht : t < 2 ^ 1) (hf : f < 2 ^ 1)
+    (hlat : lat < 2 ^ 17) (hlon : lon < 2 ^ 17) :
+    ∃ gs, isEighths gs (movLow8 (movementCode e)) = true ∧
+      movLow8 (movementCode e) ≤ e ∧ (e < 1400 → e < movLow8 (movementCode e + 1)) ∧
+      tryFrom (buildES df c aa (me06 tc (movementCode e) sts trk t f lat lon)) =
+        .ok (toDecoded (withFields (esHead df c aa) (out06 tc gs sts trk f lat lon))) := by
+  obtain ⟨m1, m2, m3, m4, m5⟩ := movement_rt e he
+  refine ⟨Bds06.groundspeed (movementCode e), m3, m4, m5, ?_⟩
+  refine tryFrom_es df c aa _ _ hdf hc haa rfl ?_ ?_
+  · have : tc < 2 ^ 5 := by omega
+    have : movementCode e < 2 ^ 7 := by omega
+    simp [fits, me06, *]
+  · intro F hF
+    exact me_bds06 F df c aa tc _ sts trk t f lat lon hF htc
+
+/-- **DF 17/18, BDS 0,8 identification**: every valid call sign, every category -/
+theorem es_identification (df c aa tc ca : Nat) (cs : List Char)
+    (hdf : df = 17 ∨ df = 18) (hc : c < 2 ^ 3) (haa : aa < 2 ^ 24) (htc : 1 ≤ tc ∧ tc ≤ 4) (hca : ca < 2 ^ 3)
+    (hcs : validCallsign cs) :
+    tryFrom (buildES df c aa (me08 tc ca cs)) =
+      .ok (toDecoded (withFields (esHead df c aa) (out08 tc ca cs))) := by
+  obtain ⟨c0, c1, c2, c3, c4, c5, c6, c7, hcodes, hlt⟩ := callsignCodes_eight cs hcs
+  have hme : me08 tc ca cs = [(5, tc), (3, ca)] ++ chars8 c0 c1 c2 c3 c4 c5 c6 c7 := by
+    simp [me08, callsignFields, hcodes, chars8]
+  have hrt := callsign_rt cs hcs
+  rw [hcodes] at hrt
+  rw [hme]
+  refine tryFrom_es df c aa _ _ hdf hc haa rfl ?_ ?_
+  · have : tc < 2 ^ 5 := by omega
+    obtain ⟨h0, h1, h2, h3, h4, h5, h6, h7⟩ := hlt
+    simp [fits, chars8, *]
+  · intro F hF
+    exact me_bds08 F df c aa tc ca c0 c1 c2 c3 c4 c5 c6 c7 cs hF htc hrt
 
 end Rs1090.Props.C03
